@@ -100,9 +100,15 @@ func (d *DurationStats) Record(nanoseconds int64) {
 }
 
 func (d *DurationStats) CollectLifetime() (IterationDurationsSnapshot, IterationDurationsSnapshot) {
-	running := d.running.Snapshot()
-	d.lifetime.Update(&d.running)
-	d.running.Reset()
+	// Take the period accumulators with atomic swaps: an iteration recorded concurrently is then
+	// either part of this period or of the next one, but never lost between a read and a reset.
+	var period IterationDurations
+	period.sum.Store(d.running.sum.Swap(0))
+	period.count.Store(d.running.count.Swap(0))
+	period.max.Store(d.running.max.Swap(0))
+	period.min.Store(d.running.min.Swap(0))
 
-	return running, d.lifetime.Snapshot()
+	d.lifetime.Update(&period)
+
+	return period.Snapshot(), d.lifetime.Snapshot()
 }
